@@ -116,7 +116,9 @@ printf 'e(%s,%s)' "$(cat dd/f.txt)" "$(cat dd/sub/g.txt)" > e.out
 echo "end $GROG_TARGET" >> "$VTRACE"`})
 	if c.Queue {
 		for _, n := range []string{"i1", "i2", "i3"} {
-			s.Targets = append(s.Targets, hist.Target{Pkg: "p", Name: n, Command: traceStart + "\nprintf '" + n + "' > " + n + ".out", Outputs: []string{n + ".out"}, Inputs: []string{"y.in"}})
+			// each takes a little while: a second queued command can only start if the cancellation needed
+			// longer than that to arrive (keeps the fail-fast oracle independent of machine load)
+			s.Targets = append(s.Targets, hist.Target{Pkg: "p", Name: n, Command: traceStart + "\nsleep 0.4\nprintf '" + n + "' > " + n + ".out", Outputs: []string{n + ".out"}, Inputs: []string{"y.in"}})
 		}
 		s.Toml = "num_workers = 1\n"
 	}
@@ -750,8 +752,16 @@ func chainCheck(prop string, keep []string, quickOps, thoroughOps int, configure
 			if op.Arg == "slow-taint-clear" && e.slowGrog == "" {
 				ov, err := slowTaintClearOverlay()
 				if err != nil {
-					c.R.BrokenCheck("slow-clear overlay: %v", err)
-					return
+					// the function to delay is gone (refactored): the adverse schedule cannot be forced any more
+					c.R.Cap("the taint-clearing step could not be delayed (%v): builds with a delayed clear are skipped", err)
+					var kept []chainOp
+					for _, o := range e.ops {
+						if o.Arg != "slow-taint-clear" {
+							kept = append(kept, o)
+						}
+					}
+					e.ops = kept
+					break
 				}
 				e.slowGrog, err = vc.BuildGrog("grog-slowclear", ov)
 				if err != nil {
